@@ -17,7 +17,7 @@ from ..gamedata import circuit_reach, proto, tile_extent
 from ..pipeline import param_with_default
 from ..sites import guard_chain
 from .c18 import pole_config
-from .util import canon, cguards, dict_of
+from .util import canon, cguards, cguards_any, dict_of
 
 
 def run(repo: Repo, rep: Report, tier: str) -> None:
@@ -124,7 +124,7 @@ def run(repo: Repo, rep: Report, tier: str) -> None:
     rsig = repo.func("RelayNetwork.route_signal")
     pmr = parents_map(rsig.node)
     empties = [n for n in walk_local(rsig.node) if isinstance(n, ast.Return) and isinstance(n.value, ast.List) and not n.value.elts]
-    ok = bool(empties) and all(any(t == "math.dist(source_pos, sink_pos) <= self.span_limit" and pol for t, pol in cguards(rsig, e)) for e in empties)
+    ok = bool(empties) and all(any(t == "math.dist(source_pos, sink_pos) <= self.span_limit" and pol for t, pol in cguards_any(rsig, e)) for e in empties)
     rep.check(ok, "C08-R3", "`no relay needed` is answered only when the endpoints are within the limit", "return [] under distance <= self.span_limit", rsig.loc())
     sl = repo.func("RelayNetwork.span_limit")
     rs_ = [n for n in walk_local(sl.node) if isinstance(n, ast.Return)]
